@@ -86,6 +86,8 @@ type Ctx struct {
 
 const maxDistinct = 3 << 20 // per child; beyond it distinct counting is conservative (stops adding)
 const maxViolationsKept = 300
+const abortAfterInconclusive = 12
+
 const abortAfterViolations = 200
 
 func newCtx(p *Prop, tier string, seed int64, shard, nshards int) *Ctx {
@@ -321,11 +323,21 @@ func (c *Ctx) runAll() {
 		if c.Thorough() {
 			n = kd.Thorough
 		}
+		c.mu.Lock()
+		inconclAtStart := c.inconcl
+		c.mu.Unlock()
 		for idx := c.Shard; idx < n; idx += c.NShards {
 			c.runCase(kd, CaseSeed(c.Seed, kd.Name, idx))
 			c.mu.Lock()
 			stop := c.kindViol >= abortAfterViolations
+			tooManyInconcl := c.inconcl-inconclAtStart >= abortAfterInconclusive
 			c.mu.Unlock()
+			if tooManyInconcl {
+				// every inconclusive case has waited out a generous bound; the run cannot end
+				// "held" any more, so the remaining cases of this kind would only cost time
+				fmt.Fprintf(os.Stderr, "skipping the rest of kind %s after %d inconclusive cases\n", kd.Name, abortAfterInconclusive)
+				break
+			}
 			if stop {
 				// the tree is violating; more cases of this kind add nothing and leaked goroutines
 				// of failed cases make every further quiescence poll slower
